@@ -529,3 +529,36 @@ SCENARIOS = [sc for k in (1, 2, 3) for sc in [
 ]] + [
     Scenario("C02.converter._generate_unique_name", s_generate_unique_name, F("Converter._generate_unique_name")),
 ]
+
+
+# ------------------------------------------------------------------ if with a script-time constant condition ---
+
+def s_if_constant(ctx):
+    """`if CONST:` — only the selected branch is translated, statement by statement and in order, as NESTED statements
+    (index_of_stmt stays None: a `return` inside stays refused, the enclosing construct may be a loop), no If node."""
+    from onnxscript._internal import converter as conv
+    cc = ctx.choose(2, "constant condition value") == 0
+    I, self, top, state = world(ctx, {"a"}, {"a"})
+    state["cc"] = cc
+    C = CM._conv_cls()
+    calls = []
+    body = [AbstractStmt(["a"], "then0"), AbstractStmt(["b"], "then1")]
+    orelse = [AbstractStmt(["a"], "else0")] if ctx.choose(2, "else branch present") == 0 else []
+
+    def m_translate_stmt(interp, slf, node, index_of_stmt=None):
+        calls.append((node, index_of_stmt))
+    I.models[C._translate_stmt] = m_translate_stmt
+    stmt = SObj(ast.If, "ifstmt")
+    stmt.fields.update(test=SObj(ast.Name, "test"), body=body, orelse=orelse, lineno=1, col_offset=0)
+    log = ctx.ghost["log"]
+    I.run_closure(I.closure_of(C._translate_if_stmt), [self, stmt], {})
+    want = body if cc else orelse
+    ctx.check("C01.converter.if.constant_condition_translates_exactly_the_selected_branch_in_order",
+              [c[0] for c in calls] == want and not [n for n in log.nodes if n["op"] == "If"],
+              "C01: 'the value every variable holds after an if/else ... is the value the same Python would give'")
+    ctx.check("C02.converter.if.constant_condition_statements_stay_nested_statements", all(c[1] is None for c in calls),
+              "C02: 'A program outside the supported subset is refused with a TranslationError/ValueError at decoration time' — a return inside an if "
+              "stays a return inside control flow (the if may itself sit in a loop body)")
+
+
+SCENARIOS.append(Scenario("C01.converter.if[constant condition]", s_if_constant, F("Converter._translate_if_stmt")))
